@@ -799,63 +799,63 @@ func c13Seek(c *Ctx) {
 
 var c13Mutants = []Mutant{
 	{Name: "delete-accepts-any-2xx", File: "registry/remote/repository.go",
-		Old: "\tcase http.StatusAccepted:\n\t\treturn verifyContentDigest(resp, target.Digest)\n\tcase http.StatusNotFound:\n\t\treturn fmt.Errorf(\"%s: %w\", target.Digest, errdef.ErrNotFound)\n\tdefault:\n\t\treturn errutil.ParseErrorResponse(resp)\n\t}",
-		New: "\tcase http.StatusNotFound:\n\t\treturn fmt.Errorf(\"%s: %w\", target.Digest, errdef.ErrNotFound)\n\tdefault:\n\t\tif resp.StatusCode >= 400 {\n\t\t\treturn errutil.ParseErrorResponse(resp)\n\t\t}\n\t\treturn verifyContentDigest(resp, target.Digest)\n\t}",
+		Old:    "\tcase http.StatusAccepted:\n\t\treturn verifyContentDigest(resp, target.Digest)\n\tcase http.StatusNotFound:\n\t\treturn fmt.Errorf(\"%s: %w\", target.Digest, errdef.ErrNotFound)\n\tdefault:\n\t\treturn errutil.ParseErrorResponse(resp)\n\t}",
+		New:    "\tcase http.StatusNotFound:\n\t\treturn fmt.Errorf(\"%s: %w\", target.Digest, errdef.ErrNotFound)\n\tdefault:\n\t\tif resp.StatusCode >= 400 {\n\t\t\treturn errutil.ParseErrorResponse(resp)\n\t\t}\n\t\treturn verifyContentDigest(resp, target.Digest)\n\t}",
 		Expect: "C13.R1"},
 	{Name: "tags-status-unchecked", File: "registry/remote/repository.go",
-		Old: "\tif resp.StatusCode != http.StatusOK {\n\t\treturn \"\", errutil.ParseErrorResponse(resp)\n\t}\n\tvar page struct {\n\t\tTags []string `json:\"tags\"`",
-		New: "\tvar page struct {\n\t\tTags []string `json:\"tags\"`",
+		Old:    "\tif resp.StatusCode != http.StatusOK {\n\t\treturn \"\", errutil.ParseErrorResponse(resp)\n\t}\n\tvar page struct {\n\t\tTags []string `json:\"tags\"`",
+		New:    "\tvar page struct {\n\t\tTags []string `json:\"tags\"`",
 		Expect: "C13.R1"},
 	{Name: "put-blob-accepts-202", File: "registry/remote/repository.go",
-		Old: "\tif resp.StatusCode != http.StatusCreated {\n\t\treturn errutil.ParseErrorResponse(resp)\n\t}\n\treturn nil\n}",
-		New: "\tif resp.StatusCode != http.StatusCreated && resp.StatusCode != http.StatusAccepted {\n\t\treturn errutil.ParseErrorResponse(resp)\n\t}\n\treturn nil\n}",
+		Old:    "\tif resp.StatusCode != http.StatusCreated {\n\t\treturn errutil.ParseErrorResponse(resp)\n\t}\n\treturn nil\n}",
+		New:    "\tif resp.StatusCode != http.StatusCreated && resp.StatusCode != http.StatusAccepted {\n\t\treturn errutil.ParseErrorResponse(resp)\n\t}\n\treturn nil\n}",
 		Expect: "C13.R1"},
 	{Name: "ping-default-is-success", File: "registry/remote/registry.go",
-		Old: "\tcase http.StatusNotFound:\n\t\treturn errdef.ErrNotFound\n\tdefault:\n\t\treturn errutil.ParseErrorResponse(resp)\n\t}",
-		New: "\tcase http.StatusNotFound:\n\t\treturn errdef.ErrNotFound\n\tcase http.StatusUnauthorized, http.StatusForbidden:\n\t\treturn errutil.ParseErrorResponse(resp)\n\tdefault:\n\t\treturn nil\n\t}",
+		Old:    "\tcase http.StatusNotFound:\n\t\treturn errdef.ErrNotFound\n\tdefault:\n\t\treturn errutil.ParseErrorResponse(resp)\n\t}",
+		New:    "\tcase http.StatusNotFound:\n\t\treturn errdef.ErrNotFound\n\tcase http.StatusUnauthorized, http.StatusForbidden:\n\t\treturn errutil.ParseErrorResponse(resp)\n\tdefault:\n\t\treturn nil\n\t}",
 		Expect: "C13.R1"},
 	{Name: "blob-fetch-no-length-check", File: "registry/remote/repository.go",
-		Old: "\t\tif size := resp.ContentLength; size != -1 && size != target.Size {\n\t\t\treturn nil, fmt.Errorf(\"%s %q: mismatch Content-Length\", resp.Request.Method, resp.Request.URL)\n\t\t}\n\t\tif err := verifyContentDigest(resp, target.Digest); err != nil {\n\t\t\treturn nil, err\n\t\t}\n\n\t\t// check server range",
-		New: "\t\tif err := verifyContentDigest(resp, target.Digest); err != nil {\n\t\t\treturn nil, err\n\t\t}\n\n\t\t// check server range",
+		Old:    "\t\tif size := resp.ContentLength; size != -1 && size != target.Size {\n\t\t\treturn nil, fmt.Errorf(\"%s %q: mismatch Content-Length\", resp.Request.Method, resp.Request.URL)\n\t\t}\n\t\tif err := verifyContentDigest(resp, target.Digest); err != nil {\n\t\t\treturn nil, err\n\t\t}\n\n\t\t// check server range",
+		New:    "\t\tif err := verifyContentDigest(resp, target.Digest); err != nil {\n\t\t\treturn nil, err\n\t\t}\n\n\t\t// check server range",
 		Expect: "C13.R2.length-checked"},
 	{Name: "blob-fetch-verify-only-seekable", File: "registry/remote/repository.go",
-		Old: "\t\tif err := verifyContentDigest(resp, target.Digest); err != nil {\n\t\t\treturn nil, err\n\t\t}\n\n\t\t// check server range request capability.\n\t\t// Docker spec allows range header form of \"Range: bytes=<start>-<end>\".\n\t\t// However, the remote server may still not RFC 7233 compliant.\n\t\t// Reference: https://docs.docker.com/registry/spec/api/#blob\n\t\tif rangeUnit := resp.Header.Get(\"Accept-Ranges\"); rangeUnit == \"bytes\" {\n\t\t\treturn httputil.NewReadSeekCloser(s.repo.client(), req, resp.Body, target.Size), nil",
-		New: "\t\t// check server range request capability.\n\t\tif rangeUnit := resp.Header.Get(\"Accept-Ranges\"); rangeUnit == \"bytes\" {\n\t\t\tif err := verifyContentDigest(resp, target.Digest); err != nil {\n\t\t\t\treturn nil, err\n\t\t\t}\n\t\t\treturn httputil.NewReadSeekCloser(s.repo.client(), req, resp.Body, target.Size), nil",
+		Old:    "\t\tif err := verifyContentDigest(resp, target.Digest); err != nil {\n\t\t\treturn nil, err\n\t\t}\n\n\t\t// check server range request capability.\n\t\t// Docker spec allows range header form of \"Range: bytes=<start>-<end>\".\n\t\t// However, the remote server may still not RFC 7233 compliant.\n\t\t// Reference: https://docs.docker.com/registry/spec/api/#blob\n\t\tif rangeUnit := resp.Header.Get(\"Accept-Ranges\"); rangeUnit == \"bytes\" {\n\t\t\treturn httputil.NewReadSeekCloser(s.repo.client(), req, resp.Body, target.Size), nil",
+		New:    "\t\t// check server range request capability.\n\t\tif rangeUnit := resp.Header.Get(\"Accept-Ranges\"); rangeUnit == \"bytes\" {\n\t\t\tif err := verifyContentDigest(resp, target.Digest); err != nil {\n\t\t\t\treturn nil, err\n\t\t\t}\n\t\t\treturn httputil.NewReadSeekCloser(s.repo.client(), req, resp.Body, target.Size), nil",
 		Expect: "C13.R2.digest-verified"},
 	{Name: "manifest-fetch-mediatype-unchecked", File: "registry/remote/repository.go",
-		Old: "\tif mediaType != target.MediaType {\n\t\treturn nil, fmt.Errorf(\"%s %q: mismatch response Content-Type %q: expect %q\", resp.Request.Method, resp.Request.URL, mediaType, target.MediaType)\n\t}\n",
-		New: "\t_ = mediaType\n",
+		Old:    "\tif mediaType != target.MediaType {\n\t\treturn nil, fmt.Errorf(\"%s %q: mismatch response Content-Type %q: expect %q\", resp.Request.Method, resp.Request.URL, mediaType, target.MediaType)\n\t}\n",
+		New:    "\t_ = mediaType\n",
 		Expect: "C13.R2.mediatype-checked"},
 	{Name: "manifest-push-digest-ignored", File: "registry/remote/repository.go",
-		Old: "\ts.checkOCISubjectHeader(resp)\n\treturn verifyContentDigest(resp, expected.Digest)",
-		New: "\ts.checkOCISubjectHeader(resp)\n\t_ = verifyContentDigest(resp, expected.Digest)\n\treturn nil",
+		Old:    "\ts.checkOCISubjectHeader(resp)\n\treturn verifyContentDigest(resp, expected.Digest)",
+		New:    "\ts.checkOCISubjectHeader(resp)\n\t_ = verifyContentDigest(resp, expected.Digest)\n\treturn nil",
 		Expect: "C13.R2"},
 	{Name: "verifier-parse-failure-tolerated", File: "registry/remote/repository.go",
-		Old: "\tcontentDigest, err := digest.Parse(digestStr)\n\tif err != nil {\n\t\treturn fmt.Errorf(\n\t\t\t\"%s %q: invalid response header: `%s: %s`\",\n\t\t\tresp.Request.Method, resp.Request.URL,\n\t\t\theaderDockerContentDigest, digestStr,\n\t\t)\n\t}",
-		New: "\tcontentDigest, err := digest.Parse(digestStr)\n\tif err != nil {\n\t\treturn nil\n\t}",
+		Old:    "\tcontentDigest, err := digest.Parse(digestStr)\n\tif err != nil {\n\t\treturn fmt.Errorf(\n\t\t\t\"%s %q: invalid response header: `%s: %s`\",\n\t\t\tresp.Request.Method, resp.Request.URL,\n\t\t\theaderDockerContentDigest, digestStr,\n\t\t)\n\t}",
+		New:    "\tcontentDigest, err := digest.Parse(digestStr)\n\tif err != nil {\n\t\treturn nil\n\t}",
 		Expect: "C13.R2.verifier"},
 	{Name: "blob-descriptor-unknown-length", File: "registry/remote/repository.go",
-		Old: "\tsize := resp.ContentLength\n\tif size == -1 {\n\t\treturn ocispec.Descriptor{}, fmt.Errorf(\"%s %q: unknown response Content-Length\", resp.Request.Method, resp.Request.URL)\n\t}\n",
-		New: "\tsize := resp.ContentLength\n",
+		Old:    "\tsize := resp.ContentLength\n\tif size == -1 {\n\t\treturn ocispec.Descriptor{}, fmt.Errorf(\"%s %q: unknown response Content-Length\", resp.Request.Method, resp.Request.URL)\n\t}\n",
+		New:    "\tsize := resp.ContentLength\n",
 		Expect: "C13.R2.length-checked"},
 	{Name: "head-without-any-digest-accepted", File: "registry/remote/repository.go",
-		Old: "\t\t\tif len(refDigest) == 0 {\n\t\t\t\t// HEAD without server `Docker-Content-Digest` header is an\n\t\t\t\t// immediate fail\n\t\t\t\treturn ocispec.Descriptor{}, fmt.Errorf(\n\t\t\t\t\t\"HTTP %s request missing required header %q\",\n\t\t\t\t\thttpMethod, headerDockerContentDigest,\n\t\t\t\t)\n\t\t\t}\n",
-		New: "",
+		Old:    "\t\t\tif len(refDigest) == 0 {\n\t\t\t\t// HEAD without server `Docker-Content-Digest` header is an\n\t\t\t\t// immediate fail\n\t\t\t\treturn ocispec.Descriptor{}, fmt.Errorf(\n\t\t\t\t\t\"HTTP %s request missing required header %q\",\n\t\t\t\t\thttpMethod, headerDockerContentDigest,\n\t\t\t\t)\n\t\t\t}\n",
+		New:    "",
 		Expect: "C13.R2.generated-descriptor"},
 	{Name: "client-digest-mismatch-accepted", File: "registry/remote/repository.go",
-		Old: "\tif len(refDigest) > 0 && refDigest != contentDigest {",
-		New: "\tif len(refDigest) > 0 && refDigest != contentDigest && httpMethod == http.MethodHead {",
+		Old:    "\tif len(refDigest) > 0 && refDigest != contentDigest {",
+		New:    "\tif len(refDigest) > 0 && refDigest != contentDigest && httpMethod == http.MethodHead {",
 		Expect: "C13.R2.generated-descriptor"},
 	{Name: "seek-accepts-200", File: "internal/httputil/seek.go",
-		Old: "\tif resp.StatusCode != http.StatusPartialContent {",
-		New: "\tif resp.StatusCode != http.StatusPartialContent && resp.StatusCode != http.StatusOK {",
+		Old:    "\tif resp.StatusCode != http.StatusPartialContent {",
+		New:    "\tif resp.StatusCode != http.StatusPartialContent && resp.StatusCode != http.StatusOK {",
 		Expect: "C13.R2.seek"},
 	{Name: "seek-offset-not-recorded", File: "internal/httputil/seek.go",
-		Old: "\trsc.rc.Close()\n\trsc.rc = resp.Body\n\trsc.offset = offset\n\treturn offset, nil",
-		New: "\trsc.rc.Close()\n\trsc.rc = resp.Body\n\treturn offset, nil",
+		Old:    "\trsc.rc.Close()\n\trsc.rc = resp.Body\n\trsc.offset = offset\n\treturn offset, nil",
+		New:    "\trsc.rc.Close()\n\trsc.rc = resp.Body\n\treturn offset, nil",
 		Expect: "C13.R2.seek"},
 	{Name: "mount-201-unverified", File: "registry/remote/repository.go",
-		Old: "\t\t// Check the server seems to be behaving.\n\t\treturn verifyContentDigest(resp, desc.Digest)",
-		New: "\t\t// Check the server seems to be behaving.\n\t\tif resp.Header.Get(\"Location\") == \"\" {\n\t\t\treturn verifyContentDigest(resp, desc.Digest)\n\t\t}\n\t\treturn nil",
+		Old:    "\t\t// Check the server seems to be behaving.\n\t\treturn verifyContentDigest(resp, desc.Digest)",
+		New:    "\t\t// Check the server seems to be behaving.\n\t\tif resp.Header.Get(\"Location\") == \"\" {\n\t\t\treturn verifyContentDigest(resp, desc.Digest)\n\t\t}\n\t\treturn nil",
 		Expect: "C13.R2.digest-verified"},
 }
